@@ -565,3 +565,4 @@ MANIFEST = {
     "note": "Trusted: R1 factors; the prefix-decade table derived from the definition text. to_preferred's choice of unit is not asserted. Containers with more than 3 factors and non-rational units are outside.",
     "ref": "DESIGN.md §4 C15",
 }
+MANIFEST["text"] += " Dimensionless reduction: scaled (percent, ppm, ...) and logarithmic (decibel, decade, octave, neper) single-unit quantities reduce, returning and in place, to the number .to('') gives."
